@@ -8,6 +8,7 @@ from ..runner import Result, scratch
 from ..bridge import quiet, monitor, extract, mt_equal
 
 from trees import treeoutput, treeinput
+from .c02 import map_parens
 
 ID = 'C17'
 LEVEL = 'exploration'
@@ -90,13 +91,13 @@ def check_spec(spec, size):
 
 
 # ---------------------------------------------------------------- CLI
-def bank(size):
+def bank(size, special=True):
     shs = [(1, 2), ((1, 2), 3), (1,), (1, (2, 3)), ((1,), 2), ((1, 2), (3, 4)), (1, 2, 3), ((1, 2, 3), 4)]
     mts = []
     for i in range(size):
         sh = shs[i % len(shs)]
         n = len(model.leaves(sh))
-        mt = model.simple_mt(sh, sid=i + 1, words=['t%dw%d' % (i + 1, j + 1) for j in range(n)])
+        mt = model.simple_mt(sh, sid=i + 1, words=['t%dw%d' % (i + 1, j + 1) if (i, j) != (1, 1) or not special else 'B\u00e4r(1)' for j in range(n)])
         mts.append(mt)
     return mts
 
@@ -124,6 +125,8 @@ def expected_part(fmt, mts):
     out = []
     for m in mts:
         words = [t['word'] for t in m.toks]
+        if fmt in ('brackets', 'discobrackets'):
+            words = [map_parens(w) for w in words]
         if fmt in ('export', 'tigerxml'):
             out.append((words, model.canon_mt(m.root)))
         elif fmt in ('brackets', 'discobrackets'):
@@ -133,9 +136,9 @@ def expected_part(fmt, mts):
     return out
 
 
-def check_cli(fmt, size, spec, use_filter, src_fmt='export'):
-    mts = bank(size)
-    case = {'cli': True, 'fmt': fmt, 'size': size, 'spec': spec, 'filter': use_filter, 'src_fmt': src_fmt}
+def check_cli(fmt, size, spec, use_filter, src_fmt='export', encs=None):
+    mts = bank(size, special=src_fmt in ('export', 'tigerxml'))
+    case = {'cli': True, 'fmt': fmt, 'size': size, 'spec': spec, 'filter': use_filter, 'src_fmt': src_fmt, 'encs': encs}
     out = []
 
     def bad(kind, detail):
@@ -145,13 +148,19 @@ def check_cli(fmt, size, spec, use_filter, src_fmt='export'):
                     'what': '--split: ' + kind})
     d = scratch()
     src = os.path.join(d, 'c17.' + src_fmt)
-    with open(src, 'w', encoding='utf-8') as f:
-        f.write({'export': codecs.encode_export, 'brackets': codecs.encode_brackets,
-                 'tigerxml': codecs.encode_tigerxml, 'discobrackets': codecs.encode_discobrackets}[src_fmt](mts))
+    src_enc, dest_enc = encs or ('utf-8', 'utf-8')
+    with open(src, 'w', encoding=src_enc) as f:
+        if src_fmt == 'tigerxml':
+            f.write(codecs.encode_tigerxml(mts, encoding=src_enc))
+        else:
+            f.write({'export': codecs.encode_export, 'brackets': codecs.encode_brackets,
+                     'discobrackets': codecs.encode_discobrackets}[src_fmt](mts))
     dest = os.path.join(d, 'c17out')
     for old in glob.glob(dest + '*'):
         os.unlink(old)
     argv = ['transform', src, dest, '--src-format', src_fmt, '--dest-format', fmt, '--split', spec]
+    if encs:
+        argv += ['--src-enc', src_enc, '--dest-enc', dest_enc]
     kept = mts
     if use_filter:
         argv += ['--trans', 'filter_by_length', '--params', 'filteroperator:gt', 'filtervalue:2']
@@ -171,8 +180,13 @@ def check_cli(fmt, size, spec, use_filter, src_fmt='export'):
         return out, True
     pos = 0
     for i, (path, k) in enumerate(zip(files, exp_parts)):
-        with open(path, encoding='utf-8') as f:
-            text = f.read()
+        try:
+            with open(path, 'rb') as f:
+                raw = f.read()
+            text = raw if fmt == 'tigerxml' else raw.decode(dest_enc)
+        except UnicodeDecodeError as e:
+            bad('part-encoding', 'part %d is not written in the destination encoding %s: %s' % (i, dest_enc, e))
+            continue
         want = expected_part(fmt, kept[pos:pos + k])
         pos += k
         try:
@@ -185,7 +199,7 @@ def check_cli(fmt, size, spec, use_filter, src_fmt='export'):
         # the corresponding reader accepts the part
         if fmt != 'terminals':
             try:
-                trees_ = list(getattr(treeinput, fmt)(path, 'utf-8', quiet=True))
+                trees_ = list(getattr(treeinput, fmt)(path, dest_enc, quiet=True))
                 got2 = []
                 for t in trees_:
                     probs = monitor(t)
@@ -263,7 +277,8 @@ def check_case(case):
         if case.get('cli'):
             if case.get('trans'):
                 return check_cli_trans(case['fmt'], case['size'], case['spec'], case['trans'])
-            return check_cli(case['fmt'], case['size'], case['spec'], case['filter'], case.get('src_fmt', 'export'))[0]
+            return check_cli(case['fmt'], case['size'], case['spec'], case['filter'], case.get('src_fmt', 'export'),
+                             tuple(case['encs']) if case.get('encs') else None)[0]
         return check_spec(case['spec'], case['size'])[0]
 
 
@@ -310,6 +325,11 @@ def run_chunk(chunk):
                     src_fmt = srcs[(si + use_filter) % len(srcs)] if chunk['size'] else 'export'
                     vs, nt = check_cli(chunk['fmt'], chunk['size'], spec, use_filter, src_fmt)
                     take(vs, nt, (chunk['fmt'], chunk['size'], spec, use_filter, src_fmt))
+            if chunk['size'] >= 2:
+                for encs in (('latin-1', 'utf-8'), ('utf-8', 'latin-1'), ('utf-16', 'utf-8')):
+                    for spec2 in ('1#_rest', '50%_50%'):
+                        vs, nt = check_cli(chunk['fmt'], chunk['size'], spec2, False, 'export', encs)
+                        take(vs, nt, (chunk['fmt'], chunk['size'], spec2, encs))
             if chunk['size'] >= 2 and chunk['fmt'] in ('export', 'tigerxml', 'discobrackets'):
                 for trans in TRANS_VARIANTS:
                     for spec2 in ('1#_rest', 'rest_1#', '50%_50%', '1#_1#_rest'):
